@@ -9,6 +9,7 @@ import (
 	"fmt"
 	"io"
 	"reflect"
+	"time"
 
 	bs "github.com/danthegoodman1/bloomsearch"
 )
@@ -364,6 +365,7 @@ func runC25(c *ctx) {
 		_ = reflect.DeepEqual
 	}
 	c25Eval(c)
+	c25PrefilterRoundTrip(c)
 	c25KnownInvalidUTF8(c)
 }
 
@@ -401,6 +403,44 @@ func c25Eval(c *ctx) {
 			}
 		}
 		h.Env.Stop()
+	}
+}
+
+// c25PrefilterRoundTrip: a file with several blocks (one per partition) whose metadata the MetaStore keeps in
+// memory; partition prefilters that keep a later block and drop an earlier one, each evaluated as written
+// and after a JSON round trip: both must return the partition's rows, every time.
+func c25PrefilterRoundTrip(c *ctx) {
+	cfg := bs.DefaultBloomSearchEngineConfig()
+	cfg.PartitionFunc = partitionFunc("p")
+	cfg.MaxBufferedTime = time.Hour
+	env := NewEnv(cfg)
+	defer env.Stop()
+	want := map[string][]int{}
+	var rows []map[string]any
+	id := 0
+	for _, pv := range []string{"ta", "tb", "tc"} {
+		for j := 0; j < 2; j++ {
+			id++
+			rows = append(rows, map[string]any{"_id": id, "p": pv})
+			want[pv] = append(want[pv], id)
+		}
+	}
+	env.IngestWait(rows)
+	for round := 0; round < 2; round++ {
+		for _, pv := range []string{"tc", "tb", "ta", "tb"} {
+			q := bs.NewQuery().MatchPrefilter(bs.Partition(bs.PartitionEquals(pv))).Build()
+			data, _ := json.Marshal(q)
+			var q2 bs.Query
+			if err := json.Unmarshal(data, &q2); err != nil {
+				c.r.Add(Finding{Kind: "violation", Check: "query-unmarshal", Detail: err.Error(), Replay: map[string]any{"json": string(data)}})
+				continue
+			}
+			a, b := env.Query(q), env.Query(&q2)
+			c.r.Case(true, fmt.Sprint("prefilter-roundtrip", round, pv))
+			if fmt.Sprint(sortedIDs(a.Rows)) != fmt.Sprint(want[pv]) || fmt.Sprint(sortedIDs(b.Rows)) != fmt.Sprint(want[pv]) {
+				c.r.Add(Finding{Kind: "violation", Check: "query-roundtrip-results", Detail: fmt.Sprintf("Partition == %s returns %v as written and %v after a JSON round trip; the partition holds %v", pv, sortedIDs(a.Rows), sortedIDs(b.Rows), want[pv]), Replay: map[string]any{"json": string(data), "round": round}})
+			}
+		}
 	}
 }
 
